@@ -24,3 +24,31 @@ Theorem C11_sent_after_accept : forall request decode_body cap dw s h p c now ch
   snd (session_call request decode_body cap dw true s h p c now chunks exc) = SVerified SAccepted :: map SWrite request.
 Proof. exact Tofu_proofs.sent_after_accept. Qed.
 Print Assumptions C11_sent_after_accept.
+
+(* ---- tie to the code (server/tls_protocol.py TLSServerProtocol): the statements of coq/Equiv/EquivTls.v, re-checked here against the definitions regenerated
+   from /repo's working tree (coq/Gen); see DESIGN.md 11.8 ---- *)
+From Coq Require Import List NArith Bool.
+From NV Require Import Prelude.Str Model.TlsPump Equiv.TlsGlue Gen.TlsGen.
+From NV Require Equiv.EquivTls.
+Theorem C11_code_connection_made_tie : forall fuel, gen_connection_made fuel blank = (cinit, [], None).
+Proof. exact EquivTls.connection_made_tie. Qed.
+Print Assumptions C11_code_connection_made_tie.
+
+Theorem C11_code_cinit_tie : abs cinit = tinit /\ wf cinit.
+Proof. exact EquivTls.cinit_tie. Qed.
+Print Assumptions C11_code_cinit_tie.
+
+Theorem C11_code_tstep_tie : forall fuel s e,
+  wf s -> live s -> model_ev e = true -> ev_size e < fuel ->
+  abs_res (gen_step fuel s e) = Some (tstep (abs s) (abs_ev e)).
+Proof. exact EquivTls.tstep_tie. Qed.
+Print Assumptions C11_code_tstep_tie.
+
+Theorem C11_code_trun_tie : forall fuel evs,
+  forallb model_ev evs = true -> Forall (fun e => ev_size e < fuel) evs ->
+  exists s' a,
+    gen_run fuel cinit evs = (s', a, None) /\ wf s' /\
+    abs_acts a = snd (trun tinit (map abs_ev evs)) /\ teq (abs s') (fst (trun tinit (map abs_ev evs))).
+Proof. exact EquivTls.trun_tie. Qed.
+Print Assumptions C11_code_trun_tie.
+
